@@ -319,7 +319,7 @@ func globalsInitOnlyRule(P *Program, R *Report, rule string) {
 				return
 			}
 			n++
-			name := shortPkg(g.Pkg.Pkg.Path()) + "." + g.Name()
+			name := shortPkg(g.Pkg.Pkg.Path()) + "." + globalName(g)
 			if isInit {
 				return
 			}
@@ -337,7 +337,7 @@ func globalsInitOnlyRule(P *Program, R *Report, rule string) {
 			if m := bigMethod(c); m != "" && bigMutators[m] && len(callArgs(c)) > 0 {
 				if u, ok := callArgs(c)[0].(*ssa.UnOp); ok {
 					if g, ok := rootOfAddr(u.X).(*ssa.Global); ok && g.Pkg != nil && inModule(g.Pkg.Pkg) {
-						name := shortPkg(g.Pkg.Pkg.Path()) + "." + g.Name()
+						name := shortPkg(g.Pkg.Pkg.Path()) + "." + globalName(g)
 						bad[name] = append(bad[name], FuncKey(fn)+" mutates in place at "+P.Pos(c.Pos()))
 					}
 				}
@@ -570,7 +570,7 @@ func freshFromConstructor(v ssa.Value, depth int) bool {
 	}
 	n := 0
 	for _, r := range returnsOf(g) {
-		rv := r.Results[0]
+		rv := retValue(r, 0)
 		if isNilConst(rv) {
 			continue
 		}
